@@ -218,7 +218,7 @@ fn catalogue() -> Vec<(Case, bool)> {
 }
 
 pub fn run(ctx: &Ctx) {
-    ctx.set_rule("all histories of length <= 3 (thorough: length 4 complete, length 5 sampled 1:40) over 28 operations {attach h to o1/o2/o3, read by .m / [\"m\"] from each, fresh function, through argument+return, into / out of a list, chain read, closure capture, copy between variables, re-attach from o1 to o2, re-point the chain, through a fresh object literal, call h(), o.m(), chain call, list element call, call inside another function} x 6 definition styles (named, anonymous, nested closure, `this` only inside an interpolation slot / a slot of a slot / a closure called from a slot) (named fn, anonymous, nested closure), objects carrying distinct tags; arity 0..4 x rest x argument count 0..arity+2 x plain/spread with tracing arguments and a parameter that is assigned inside; catalogue of parameter freshness / this identity; oracle: reference with origin provenance. Non-trivial = the history distinguishes one of {this = first object ever, this dropped on store, this dropped on pass, arguments copied} or has >= 2 moves; distinct = distinct source texts");
+    ctx.set_rule("all histories of length <= 3 (thorough: length 4 complete, length 5 sampled 1:40) over 28 operations {attach h to o1/o2/o3, read by .m / [\"m\"] from each, fresh function, through argument+return, into / out of a list, chain read, closure capture, copy between variables, re-attach from o1 to o2, re-point the chain, through a fresh object literal, call h(), o.m(), chain call, list element call, call inside another function} x 6 definition styles (named, anonymous, nested closure, `this` only inside an interpolation slot / a slot of a slot / a closure called from a slot) (named fn, anonymous, nested closure), objects carrying distinct tags; arity 0..4 x rest x argument count 0..arity+2 x plain/spread with tracing arguments and a parameter that is assigned inside; catalogue of parameter freshness / this identity; oracle: reference with origin provenance; a method put into a list by range assignment / concatenation and slicing. Non-trivial = the history distinguishes one of {this = first object ever, this dropped on store, this dropped on pass, arguments copied} or has >= 2 moves; distinct = distinct source texts");
     ctx.replay_corpus(None);
     ctx.judge_all(catalogue(), Via::Cli, None);
     ctx.judge_all(call_matrix(ctx), Via::Cli, None);
